@@ -1,4 +1,4 @@
-HOOK_COMMITS = ["8abe067", "98c08e4"]
+HOOK_COMMITS = ["8abe067", "98c08e4", "e4468a7"]
 NOTES = ("Technique family: runtime monitoring and sanitizers. Exit codes: 0 held, 1 violation, 3 inconclusive "
          "(build failure / watchdog / empty stratum). Known findings: /verif/known_findings.json (signature-keyed).")
 NOT_APPLICABLE = {}
@@ -44,7 +44,7 @@ CHECKS = {
     "C03": {
         "technique": "crash/abort/fuel monitor in isolated worker processes: hostile texts through every decoder entry point and a hostile reader family; logical-step fuel via hook H1; write-ahead progress marker for abort attribution",
         "level": "Held on ~9e5 (quick) / ~3e7 (thorough) decoder executions: ladders to depth 1e5, all prefixes of ~2e5 documents (thorough), mutants, bytes. Sampling; termination is a bounded-step restatement.",
-        "note": "Trusted: hook H1 sits in every loop that can spin (Scanner::read, both Lexer::read); the fuel bound 8*len+256 (observed max 3 steps/byte).",
+        "note": "Trusted: hook H1 sits in every loop that can spin (Scanner::read, both Lexer::read, every while/loop iteration of the decoders); the fuel bound 16*len+512 (observed max 5 steps/byte).",
         "design_ref": "DESIGN.md §4 C03, §2 H1",
     },
     "C07": {
